@@ -304,6 +304,7 @@ def run_impl(case, timeout=5, clauses_obj=None, assumptions_obj=None):
         out["solution"] = None if r.solution is None else {int(k): bool(v) for k, v in r.solution.items()}
         out["solutions"] = None if r.solutions is None else [{int(k): bool(v) for k, v in s.items()} for s in r.solutions]
         out["objective"] = r.objective
+        out["decisions"], out["propagations"] = r.iterations, r.evaluations
     elif res[0] == "exc":
         out["exc"] = [res[1], res[2]]
     ev = []
